@@ -50,6 +50,9 @@ enum Kind : int {
   K_VARIANT,       // variant_sender<A,B> chosen at run time by node_arg[nid] (0 -> c0, 1 -> c1) via defer
   K_LEAF_AI,       // harness leaf whose sender_traits declare blocking == always_inline (always completes inside start())
   K_LEAF_ND,       // harness leaf whose sender_traits declare sends_done == false (never completes with done)
+  K_WAR,           // then(when_all_range(vector{c...}), normalise)   children all of one C++ type (0..3 of them)
+  K_NEST,          // nest(c0, scope)        scope: an open v2::async_scope owned by the harness, joined after the run
+  K_NEST_CLOSED,   // nest(c0, closed scope) the scope was joined before the expression was built: done, c0 never started
   K__COUNT
 };
 
@@ -59,7 +62,8 @@ inline const char* kind_name(int k) {
                             "finally", "via", "typed_via", "on", "sequence", "when_all", "when_any", "stop_when", "unstoppable",
                             "materialize|dematerialize", "done_as_optional", "retry_when", "repeat_effect_until", "let_value_with_stop_source",
                             "let_value_with_stop_token", "let_value_with", "any_sender_of", "allocate", "defer", "into_variant",
-                            "with_query_value", "with_allocator", "variant_sender", "leaf[always_inline]", "leaf[sends_done=false]"};
+                            "with_query_value", "with_allocator", "variant_sender", "leaf[always_inline]", "leaf[sends_done=false]",
+                            "when_all_range", "nest", "nest(closed scope)"};
   return (k >= 0 && k < K__COUNT) ? n[k] : "?";
 }
 
